@@ -226,7 +226,16 @@ def build(tier='quick'):
         add(f'custom-{fam}-error-first', 'full', decl_src(fam, f'validate(error = E, with = {c})'), True, f'{fam}: error + with')
         add(f'custom-{fam}-with-only', 'full', decl_src(fam, f'validate(with = {c})'), False, f'{fam}: with without error')
         add(f'custom-{fam}-error-only', 'full', decl_src(fam, 'validate(error = E)'), False, f'{fam}: error without with')
-        add(f'custom-{fam}-mixed', 'full', decl_src(fam, f'validate(with = {c}, error = E, {FAM_VALID[fam]})'), False, f'{fam}: with/error mixed with built-ins')
+        parts = {'w': f'with = {c}', 'e': 'error = E', 'b': FAM_VALID[fam]}
+        for perm in itertools.permutations('web'):
+            txt = ', '.join(parts[k] for k in perm)
+            add(f'custom-{fam}-mixed-{"".join(perm)}', 'full', decl_src(fam, f'validate({txt})'), False, f'{fam}: with/error mixed with a built-in validator, order `{txt}`')
+        for perm in itertools.permutations('wb'):
+            txt = ', '.join(parts[k] for k in perm)
+            add(f'custom-{fam}-mixed-noerror-{"".join(perm)}', 'full', decl_src(fam, f'validate({txt})'), False, f'{fam}: `with` plus a built-in validator without `error`, order `{txt}`')
+        for perm in itertools.permutations('eb'):
+            txt = ', '.join(parts[k] for k in perm)
+            add(f'custom-{fam}-mixed-nowith-{"".join(perm)}', 'full', decl_src(fam, f'validate({txt})'), False, f'{fam}: `error` plus a built-in validator without `with`, order `{txt}`')
         add(f'custom-{fam}-dup-with', 'full', decl_src(fam, f'validate(with = {c}, with = {c}, error = E)'), False, f'{fam}: duplicate with')
         add(f'custom-{fam}-dup-error', 'full', decl_src(fam, f'validate(with = {c}, error = E, error = E)'), False, f'{fam}: duplicate error')
 
@@ -263,6 +272,10 @@ def build(tier='quick'):
         add(f'tname-{nm}', 'full', src, True, f'newtype named `{nm}`')
     # new_unchecked on a generic newtype
     add('generic-new-unchecked', 'full', PRE + '#[nutype(new_unchecked, derive(Debug))]\npub struct W<T>(Vec<T>);\n', True, 'new_unchecked on a generic newtype')
+    add('generic-bounds-into', 'full', PRE + '#[nutype(derive(Debug, Clone, Into, AsRef, Deref, Borrow, From))]\npub struct W<T: Clone>(Option<T>);\n', True,
+        'generic newtype with a trait bound deriving Into/AsRef/Deref/Borrow/From')
+    add('generic-two-bounds-tryfrom', 'full', PRE + '#[nutype(validate(predicate = |v| !v.is_empty()), derive(Debug, Clone, Into, TryFrom, IntoIterator))]\npub struct W<T: Clone + PartialEq>(Vec<T>);\n', True,
+        'generic newtype with two trait bounds deriving Into/TryFrom/IntoIterator')
     add('generic-lifetime', 'full', PRE + "#[nutype(derive(Debug, Clone, AsRef), validate(predicate = |s| !s.is_empty()))]\npub struct W<'a>(std::borrow::Cow<'a, str>);\n", True,
         'newtype with a lifetime parameter')
     add('generic-bounds', 'full', PRE + '#[nutype(derive(Debug, Clone, PartialEq, PartialOrd), validate(predicate = |v| !v.is_empty()), sanitize(with = |mut v| { v.sort(); v }))]\npub struct W<T: Ord>(Vec<T>);\n', True,
